@@ -2,7 +2,7 @@
    (style Q / discrete). *)
 From Coq Require Import Reals Lra QArith Qabs Sorting.Sorted.
 From EsVerif.Common Require Import Base.
-From EsVerif.C19 Require Import Model ModelQ Spec ProofsGeo ProofsSampler.
+From EsVerif.C19 Require Import Model ModelQ Spec ProofsGeo ProofsSampler Exec ExecSound.
 
 (* ================================================================ sky positions (over R) *)
 
@@ -118,6 +118,12 @@ Proof.
   split; [exact gen_check_sound|]. split; [exact gen_ok_b_sound|]. split; [exact pairs_mono_b_sound|].
   split; [exact in_grid_b_sound|]. split; [exact chol_check_sound|exact sky_check_sound].
 Qed.
+
+(* the verdict the generated case files evaluate (cumulative table built once) is the verdict
+   assembled from the checkers above *)
+Theorem C19_fast_verdict_is_spec_verdict : forall pofx x us out,
+  v_gen_fast pofx x us out = v_gen pofx x us out.
+Proof. exact v_gen_fast_eq. Qed.
 
 (* ================================================================ non-vacuity *)
 Example C19_nonvacuous :
